@@ -148,7 +148,7 @@ PROPS['C04'] = dict(
 )
 PROPS['C06'] = dict(
     technique='CBMC bounded contract checks on the static hash table: every well-formed slot structure of a 2-slot table enumerated as instances (value bytes symbolic), put with values on both sides of the slot boundaries, structural invariant + ideal-map view + exact accounting as postcondition; memcpy of value blocks by ghost-offset contract',
-    text='For every well-formed structure of a 2-slot table (leading keys, collision keys, extension blocks, free slots, all home-index patterns under an uninterpreted placement hash) put_by_obj (values of 1/33/99 bytes on the 28 structures without a free slot - refusal and replace paths; 1-byte values on the 5 structures with a free slot - the success paths; multi-slot stores into free slots exhaust the solver's memory and are not admitted) is shown to succeed exactly when a slot is free and the value fits into free plus released slots, to store the exact length in ceil-many slots with the given bytes, to keep every other key unchanged, to leave its own key unchanged or absent on ENOBUFS, and to keep used-slot/key counters exact; get/remove by key on two structures (thorough).',
+    text='For every well-formed structure of a 2-slot table (leading keys, collision keys, extension blocks, free slots, all home-index patterns under an uninterpreted placement hash) put_by_obj (values of 1/33/99 bytes on the 28 structures without a free slot - refusal and replace paths; 1-byte values on the 5 structures with a free slot - the success paths; multi-slot stores into free slots exhaust the memory of the SAT solver and are not admitted) is shown to succeed exactly when a slot is free and the value fits into free plus released slots, to store the exact length in ceil-many slots with the given bytes, to keep every other key unchanged, to leave its own key unchanged or absent on ENOBUFS, and to keep used-slot/key counters exact; get/remove by key on two structures (thorough).',
     design_ref='DESIGN.md section 3 C06',
     note='Bounded stand-in: capacity 2 slots, in-slot one-byte keys, alphabet of 3 keys; keys longer than 16 bytes (MD5 path), getnext/clear and put on capacities >= 3 are NOT covered; remove_by_idx is covered on all 2-slot structures and on the 3-slot structures with a collision leader and an extension block (the harnesses exist but do not finish within the budgets of this sandbox); value bytes are claimed for an arbitrary ghost offset per block.',
     trusted_base=COMMON_TRUST + ['qhashmurmur3_32/qhashmd5 replaced by deterministic stand-ins inside this harness', 'memcpy of value blocks: assumed ghost-offset contract; get_slots(): typed contract stub whose equality with the real byte arithmetic is an obligation at every call; malloc of result buffers: fixed-capacity object with the requested size checked at every copy'],
